@@ -312,6 +312,54 @@ def oracle_pool(ctx: Ctx, im: Impl, D, dims, P, k, p, kind, block, flags, gs, ti
                               dict(full, op="max_pool"))
 
 
+def near_tie_pool(ctx: Ctx, im: Impl, D, dims, P, p, gs, stats):
+    """max pooling where the maximal norm of every patch is unique but the runner-up is closer than 1e-5:
+    scalar / pseudo-scalar pixels of magnitude 1 + j 2^-18 with pairwise distinct j (exact in float32, and
+    |x| is computed exactly): the unique maximiser must be selected, before and after g"""
+    rng = ctx.rng
+    C = 1
+    n = int(np.prod(dims))
+    ints = np.stack([((1 << 18) + rng.permutation(n).reshape(dims)) * rng.choice([-1, 1], size=dims)
+                     for _ in range(C)]).astype(np.int64)
+    scale = np.float32(2.0 ** -18)
+
+    def mp(b_int):
+        x = b_int.astype(np.float32) * scale  # exact
+        y = np.stack([np.asarray(im.geom.max_pool(D, im.jnp.array(img, dtype=im.jnp.float32), P)) for img in x])
+        return to_int(y.astype(np.float64) * 2.0 ** 18)
+
+    desc = pool_case_desc(D, dims, P, 0, p, "near_tie", C)
+    # exact expectation: the pixel of largest |value| of every patch
+    want = np.zeros((C,) + tuple(d // P for d in dims), dtype=np.int64)
+    for c in range(C):
+        pv = patch_view(ints[c], D, P)
+        idx = np.argmax(np.abs(pv), axis=-1)
+        want[c] = np.take_along_axis(pv, idx[..., None], axis=-1)[..., 0]
+    full = dict(desc, block=jarr(ints), scale="2^-18")
+    try:
+        base = mp(ints)
+    except Exception as e:  # noqa: BLE001
+        ctx.violation("oracle", "max_pool raised on a near-tie input", dict(full, raised=repr(e)[:300]))
+        return
+    ctx.case(("pool-near-tie", desc, ints.tobytes().hex()[:48]), P > 1, sample=desc)
+    ctx.hist("pool_input", "near_tie")
+    if base is None or base.shape != want.shape or not np.array_equal(base, want):
+        ctx.violation("oracle", "max_pool does not select the pixel of (uniquely) maximal norm when the runner-up is "
+                                "within 1e-5", dict(full, impl=None if base is None else jarr(base), expected=jarr(want)))
+        return
+    for g in gs:
+        if is_identity(g):
+            continue
+        gB = refs.act_block(ints, D, 0, p, g)
+        got = mp(gB)
+        r = refs.act_block(base, D, 0, p, g)
+        stats["maxpool_checked"] += 1
+        if got is None or got.shape != r.shape or not np.array_equal(got, r):
+            ctx.violation("oracle", "max_pool(g.x) != g.max_pool(x) (unique maximal norm, runner-up within 1e-5)",
+                          dict(full, g=mat_list(g), op="max_pool"))
+            return
+
+
 def oracle_shift(ctx: Ctx, im: Impl, D, dims, P, k, p, kind, block, flags, tie, stats):
     """pooling / unpooling vs np.roll by multiples of the patch length"""
     desc = pool_case_desc(D, dims, P, k, p, kind, block.shape[0])
@@ -380,6 +428,9 @@ def run_pool(ctx: Ctx, stats):
                     oracle_pool(ctx, im, D, dims, P, k, p, kind, block, flags, g_here, tie, stats)
                     if kind in ("tie_free", "small_range"):
                         oracle_shift(ctx, im, D, dims, P, k, p, kind, block, flags, tie, stats)
+    # near ties: the maximiser is unique but the runner-up is within 1e-5
+    for D, dims, P, p in ((2, (4, 4), 2, 0), (2, (4, 6), 2, 1), (2, (6, 3), 3, 0), (3, (2, 4, 2), 2, 1)):
+        near_tie_pool(ctx, im, D, dims, P, p, group_elements(ctx, D)[:6], stats)
     # malformed: a patch length that does not divide the extents is rejected by both
     for D, dims, P in ((2, (4, 5), 2), (3, (2, 3, 2), 2), (2, (3, 3), 2)):
         block = rng.integers(-3, 4, size=(1,) + dims).astype(np.int64)
